@@ -167,6 +167,43 @@ pub fn describe(tape: &[u32]) -> Value {
     json!({"case": d, "state_json": case_to_json(&c)})
 }
 
+/// Strict mode: a RET whose jump is rejected (R7 points at an uninitialized word) did not execute, so it is not a
+/// return: the frame depth stays as it was (the PC is left behind the fetched word, as after every error).  d nested `JSR #1` calls, then R7 += k, then RET.
+fn strict_rejected_ret(d: usize, k: i16, debug_frames: bool) -> Result<(), String> {
+    use lc3_ensemble::sim::{SimFlags, Simulator};
+    let mut sim = Simulator::new(SimFlags { strict: true, debug_frames, machine_init: MachineInitStrategy::Known { value: 0 }, ..Default::default() });
+    let e = |m: MInstr| crate::model::isa::enc(&m);
+    let mut a = 0x3000u16;
+    for _ in 0..d {
+        sim.mem[a].set(e(MInstr::Jsr { off: 1 }));
+        sim.mem[a + 1].set(0x0000);
+        a += 2;
+    }
+    sim.mem[a].set(e(MInstr::Add { dr: 7, sr1: 7, src: crate::model::isa::Src::Imm(k) }));
+    sim.mem[a + 1].set(0xC1C0);
+    sim.pc = 0x3000;
+    for i in 0..=d {
+        sim.step_in().map_err(|e| format!("HARNESS: step {i} of the call chain failed: {e:?}"))?;
+    }
+    if sim.frame_stack.len() as usize != d {
+        return Err(format!("HARNESS: depth {} after {d} calls", sim.frame_stack.len()));
+    }
+    let (pc, n) = (sim.pc, sim.instructions_run);
+    let r = sim.step_in();
+    if r.is_ok() {
+        return Err(format!("HARNESS: strict mode accepted a RET to the uninitialized word x{:04X}", sim.reg_file[reg(7)].get()));
+    }
+    if sim.frame_stack.len() as usize != d {
+        return Err(format!(
+            "strict mode rejected the RET at x{pc:04X} ({r:?}) at depth {d}, yet afterwards the frame depth is {} (PC x{:04X}, {} instructions run; before: depth {d}, PC x{pc:04X}, {n}): a return that did not execute must not pop a frame",
+            sim.frame_stack.len(),
+            sim.pc,
+            sim.instructions_run
+        ));
+    }
+    Ok(())
+}
+
 pub fn run(ctx: &Ctx) -> Outcome {
     let mut out = Outcome::new(
         "generated user programs with nested JSR/JSRR subroutines (R7 saved on the stack), I/O traps (which nest further traps inside the OS), top-level RETs (underflow), scheduled interrupts, registered calling-convention and pass-by-register signatures, \
@@ -175,12 +212,24 @@ pub fn run(ctx: &Ctx) -> Outcome {
     );
     let cfg = TapeCfg::new(ctx, 1500, 60_000, 600);
     out.shards = cfg.shards;
+    // strict mode, rejected RET: 6 depths x 3 distances x debug frames on/off
+    out.absorb(par_enumerate(36, 4, |i, st| {
+        let (d, k, df) = (1 + (i % 6) as usize, [10i16, 15, 3][(i / 6 % 3) as usize], i >= 18);
+        st.class("strict-mode-rejected-ret");
+        strict_rejected_ret(d, k, df).map_err(|m| Failure { case: json!({"strict_rejected_ret": {"depth": d, "r7_plus": k, "debug_frames": df}}), message: m, description: json!(format!("{d} nested JSR #1, ADD R7,R7,#{k}, RET in strict mode (debug_frames {df})")) })
+    }));
+    if out.failed() {
+        return out;
+    }
     out.absorb(tape_search(ctx, "main", &cfg, check, describe));
-    out.essential = ["debug-frames-on", "debug-frames-off", "depth>=2", "depth>=3", "depth>=130", "return-at-depth-0", "frame-with-arguments", "jump-not-through-R7-inside-a-frame", "argument-block-reaches-top-of-memory", "subroutine-frame", "trap-frame", "interrupt-frame"].iter().map(|s| s.to_string()).collect();
+    out.essential = ["strict-mode-rejected-ret", "debug-frames-on", "debug-frames-off", "depth>=2", "depth>=3", "depth>=130", "return-at-depth-0", "frame-with-arguments", "jump-not-through-R7-inside-a-frame", "argument-block-reaches-top-of-memory", "subroutine-frame", "trap-frame", "interrupt-frame"].iter().map(|s| s.to_string()).collect();
     out
 }
 
 pub fn replay(_ctx: &Ctx, case: &Value, st: &mut Stats) -> Result<(), String> {
+    if let Some(c) = case.get("strict_rejected_ret") {
+        return strict_rejected_ret(c["depth"].as_u64().unwrap_or(1) as usize, c["r7_plus"].as_i64().unwrap_or(10) as i16, c["debug_frames"].as_bool().unwrap_or(false));
+    }
     if case.get("state").is_some() {
         let c = case_from_json(&case["state"])?;
         return lockstep(&c, st, &mut |_, _, _| Ok(())).map(|_| ());
